@@ -7,7 +7,7 @@ HERE = os.path.dirname(os.path.dirname(os.path.abspath(__file__)))
 
 CLAIMED = {
     "C01": ("5/C01", "run invariant under seeded simulation",
-            "Every row of every simulated rebalance run (swarm of workloads, batch sizes, inline vs pickled-process worker semantics, task schedules, thresholds, clock jumps, MCS-stage faults) is checked against an independent element/charge balance oracle; the input dimension is the committed corpus plus (thorough) the shipped validation set, i.e. sampling."),
+            "Every row of every simulated rebalance run (swarm of workloads, batch sizes, inline vs pickled-process worker semantics, task schedules, thresholds, clock jumps, MCS-stage faults, worker failures at drawn Parallel calls) is checked against an independent element/charge balance oracle; the input dimension is the committed corpus plus (thorough) the shipped validation set, i.e. sampling."),
     "C02": ("5/C02", "run invariant under seeded simulation",
             "Molecule-multiset containment oracle (independent atom-map stripping and canonicalisation) on every row of the same kind of simulated runs, incl. revert paths after injected MCS faults; little schedule content beyond the id/position plumbing, said plainly."),
     "C03": ("5/C03", "run invariant under seeded simulation with fault injection",
@@ -19,17 +19,17 @@ CLAIMED = {
     "C06": ("5/C06", "seeded simulation of batch contexts vs solo reference",
             "Permutations x partitions x worker counts (inline vs pickled-process semantics per call site) x task completion orders x repeated runs on one Balancer, each row compared with the reaction's solo row and statistics with the sum of solo statistics."),
     "C10": ("5/C10", "seeded simulation + enumerated failed-job patterns with outside taps",
-            "Search results are tapped from outside and checked for molecule-list identity, substructure containment, largest-condition selection and id attribution under mixed batches, permutations, worker semantics and every failed/ok pattern of the condition tables for small batches."),
+            "Search results are tapped from outside and checked for molecule-list identity, substructure containment, largest-condition selection and id attribution under mixed batches (up to 9 MCS rows), permutations, worker semantics, RDKit budget exhaustion inside the jobs and every failed/ok pattern of the condition tables for small batches."),
     "C11": ("5/C11", "deterministic simulation with fault injection (timeouts, zombie threads, RDKit budget exhaustion)",
-            "Timeouts/hangs/exceptions injected into arbitrary subsets of search and fragment jobs and RDKit calls; timed-out jobs continue as real threads stepped line by line by the scheduler while the pipeline reads the shared record; each faulty run is judged against its fault-free twin; all job subsets of small batches are enumerated."),
+            "Timeouts/hangs/exceptions injected into arbitrary subsets of search and fragment jobs and RDKit calls; timed-out jobs continue as real threads stepped line by line by the scheduler while the pipeline reads the shared record; each faulty run is judged row by row against its fault-free twin, and the fault-free run after the faults stopped must equal the run on pristine process state; all job subsets of small batches are enumerated."),
     "C12": ("5/C12", "deterministic simulation of run histories over a simulated cache directory with crash-point enumeration",
-            "Histories of runs on an in-memory file system with kills at byte N / before file creation, ENOSPC, lost files and configuration changes between runs; every completed run is compared with the same run uncached; thorough enumerates every byte offset of the cache writes of fixed runs."),
+            "Histories of runs on an in-memory file system with kills at byte N / before file creation, ENOSPC, lost files and configuration changes between runs (threshold, reaction column, atom-map removal, selected columns; through the constructor or by attribute assignment); every completed run is compared with the same run uncached; thorough enumerates every byte offset of the cache writes of fixed runs."),
     "C13": ("5/C13", "configuration sweep on a frozen simulated schedule",
             "Same plan (rows, batching, schedule, faults) re-run with only the threshold changed, at 0, 1, every observed confidence, its float neighbours and +-0.001; boundary, independence of other rows and monotonicity are relations between those runs."),
     "C18": ("5/C18", "run invariant under seeded simulation",
             "Statistics-vs-rows relations on every simulated run incl. batching, thresholds, faulted MCS stages and CLI runs whose .stats file is parsed back."),
     "C19": ("5/C19", "history search against a reference model (exhaustive short + seeded long)",
-            "All operation histories up to length 3 (quick) / 4 (thorough) from the empty database plus seeded long histories from the shipped rule files, compared with a list model after every step; no fault kind applies to this in-memory object."),
+            "All operation histories up to length 4 (quick) / 5 (thorough) from the empty database over a 19-letter alphabet plus seeded long histories from the shipped rule files, compared with a list model after every step; no fault kind applies to this in-memory object."),
 }
 NOTE = ("Sampling, not proof. Trusted: RDKit parser/sanitiser/canonicaliser/substructure matcher (oracles), cloudpickle round trip as the model of "
         "loky process semantics, CPython sys.monitoring LINE events as pre-emption points, PYTHONHASHSEED pinned to 0 (fgutils is hash-order dependent). "
